@@ -149,15 +149,41 @@ func c12TypeTable(p *core.Prog, r *core.Run) map[int64]string {
 	deflt := ""
 	nDefault := 0
 	storeBlocks := map[*ssa.BasicBlock]bool{}
+	// a store of a value selected beforehand (the result of a helper that
+	// switches on the type and returns `any`) is judged per way the value gets
+	// there: the block the value comes from carries the type test
+	type vstore struct {
+		st  *ssa.Store
+		val ssa.Value
+		blk *ssa.BasicBlock
+	}
+	var vstores []vstore
 	for _, st := range fieldStores(p, []*ssa.Function{rr}, dataF) {
 		storeBlocks[st.Block()] = true
+		var expand func(v ssa.Value, blk *ssa.BasicBlock, depth int)
+		expand = func(v ssa.Value, blk *ssa.BasicBlock, depth int) {
+			if ph, ok := v.(*ssa.Phi); ok && depth < 4 {
+				for k, e := range ph.Edges {
+					expand(e, ph.Block().Preds[k], depth+1)
+				}
+				return
+			}
+			vstores = append(vstores, vstore{st, v, blk})
+		}
+		expand(st.Val, st.Block(), 0)
+	}
+	for _, vs := range vstores {
+		st := vs.st
 		typ := "?"
-		if mi, ok := st.Val.(*ssa.MakeInterface); ok {
+		if c, isC := vs.val.(*ssa.Const); isC && c.Value == nil {
+			continue // the nil that accompanies an error return
+		}
+		if mi, ok := vs.val.(*ssa.MakeInterface); ok {
 			typ = p.X(mi).Name
 			typ = shortType(p, mi.X.Type())
 		}
 		var codes []int64
-		for _, f := range p.Facts(st.Block()) {
+		for _, f := range p.Facts(vs.blk) {
 			if f.Op == "==" && f.L.Op == "field" && f.L.Name == "Type" {
 				if k, ok := f.R.ConstInt(); ok {
 					codes = append(codes, k)
@@ -167,7 +193,7 @@ func c12TypeTable(p *core.Prog, r *core.Run) map[int64]string {
 		if len(codes) == 0 {
 			// a case with several codes: some dominating block is entered from
 			// several equality tests on the type
-			for b := st.Block(); b != nil && len(codes) == 0; b = b.Idom() {
+			for b := vs.blk; b != nil && len(codes) == 0; b = b.Idom() {
 				if len(b.Preds) < 2 {
 					continue
 				}
@@ -198,7 +224,7 @@ func c12TypeTable(p *core.Prog, r *core.Run) map[int64]string {
 			var missing []string
 			for _, k := range []int64{1, 2, 5, 12, 28, 41, 65} {
 				ne := false
-				for _, f := range p.Facts(st.Block()) {
+				for _, f := range p.Facts(vs.blk) {
 					if f.Op == "!=" && f.L.Op == "field" && f.L.Name == "Type" {
 						if c, ok := f.R.ConstInt(); ok && c == k {
 							ne = true
